@@ -1424,7 +1424,8 @@ class SpaceManager(SharedSpaceOperations):
 
         data = {k: v for k, v in source.data.items() if k in source.input_keys}
         return self.new_cells(space, name=name, formula=source.formula,
-                       data=data, is_derived=False)
+                       data=data, is_derived=False,
+                       is_cached=source.is_cached)
 
     def rename_cells(self, cells, name):
         """Renames the Cells name"""
